@@ -2,7 +2,7 @@
    on the same configuration / key ownership and must predict the pack outcome and every party's result. *)
 From Coq Require Import List NArith Bool.
 Import ListNotations.
-From VF Require Export C01.Model.
+From VF Require Export C01.Model C01.KeyRef.
 Local Open Scope N_scope.
 
 (* observed unpack result: payload id (the packed payload's id when byte-equal, 999999 otherwise),
@@ -22,14 +22,21 @@ Definition proj (r : res (term * option N * N)) : uobs :=
   | _ => URej
   end.
 
+(* c_refs (packager with DID-document key references): the DID documents involved, the sender's reference (unused
+   for anoncrypt) and the recipients' references as strings; the model then runs packager.PackMessage (pack_msg:
+   resolution against the documents, sender id build + split) instead of being handed the resolved keys *)
 Record case := { c_cfg : cfg; c_viapk : bool; c_spar : list N; c_payload : N; c_sender : N; c_rcpts : list N;
+                 c_refs : option (directory * ref * list ref);
                  c_packed : bool; c_unp : list (list N * uobs) }.
 
 (* randomness names outside the harness's key names (ephemeral keys are key names too) *)
 Definition rnd0 := mkrnd 100000 100001 100002.
 
 Definition check_case (c : case) : bool :=
-  match pack (c_cfg c) (c_spar c) (c_payload c) (c_sender c) (c_rcpts c) rnd0 with
+  match (match c_refs c with
+         | Some (d, sr, rrs) => pack_msg d (c_cfg c) (c_spar c) (c_payload c) sr rrs rnd0
+         | None => pack (c_cfg c) (c_spar c) (c_payload c) (c_sender c) (c_rcpts c) rnd0
+         end) with
   | Ok w =>
       c_packed c &&
       forallb (fun po => uobs_eqb (snd po)
